@@ -11,6 +11,7 @@ import Rpki.Model.ProvMsg
 import Rpki.Proofs.ChainPrefix
 import Rpki.Proofs.ChainOps
 import Rpki.Model.ResSetOps
+import Rpki.Proofs.ProvMsgLemmas
 namespace Rpki.C03
 open Rpki.Chain Rpki.Consts
 
@@ -407,6 +408,15 @@ theorem resset_containsRoa_iff (a : ResSet) (lo hi : Nat) :
     containsRoa a lo hi = true ↔ (∃ r ∈ a.v4, r.lo ≤ lo ∧ hi ≤ r.hi) ∨ (∃ r ∈ a.v6, r.lo ≤ lo ∧ hi ≤ r.hi) := by
   unfold containsRoa
   simp only [Bool.or_eq_true, List.any_eq_true, Bool.and_eq_true, decide_eq_true_eq]
+
+/-- **Text round trip of a resource set**: the three text forms a canonical set prints (`Display` of its chains,
+which is also what its serde form and the RFC 6492 attributes carry) are read back by `from_strs` as the same set —
+IPv4 chains being chains of IPv4 blocks (low 96 bits all zero / all one, as the library keeps them). -/
+theorem resset_text_roundtrip (s : ResSet) (hs : SetCanon s)
+    (h4 : ∀ b ∈ s.v4, b.lo % 2 ^ 96 = 0 ∧ b.hi % 2 ^ 96 = 2 ^ 96 - 1) :
+    fromStrs (ResText.fmtAs s.asn) (fmtV4 s.v4) (fmtV6 s.v6) = some s := by
+  unfold fromStrs
+  rw [ProvMsg.readAs_fmt s.asn hs.1, ProvMsg.readIp_fmt_v4 s.v4 hs.2.1 h4, ProvMsg.readIp_fmt_v6 s.v6 hs.2.2]
 
 end ResourceSets
 
